@@ -1,11 +1,1037 @@
-//! C02 — not built yet (see DESIGN.md §5 C02).
+//! C02 — query results do not depend on which secondary indexes exist (DESIGN §5 C02).
+//!
+//! Twin execution. For every index shape of a menu and every DML history (BFS, all sequences of
+//! length ≤ L over a fixed alphabet, merged on the full database fingerprint) three databases are
+//! kept: `plain` (never sees CREATE INDEX), `maint` (index created right after the prelude rows and
+//! maintained through the history) and `fresh` (= `plain` after the history + CREATE INDEX, i.e.
+//! the index is built from the final rows). After the history every query of a large menu on the
+//! indexed column(s) is executed on the twins:
+//!   * same bag of rows on the indexed twin as on `plain` (queries without LIMIT);
+//!   * with ORDER BY the indexed twin's sequence must be sorted by the keys, NULLs last
+//!     (keys re-read from the returned rows and compared by `tw::cmp_key`, not by the engine);
+//!   * with LIMIT/OFFSET the key sequence must equal the plain twin's and every row must occur
+//!     in the plain twin's unlimited result.
+//! `maint` is only examined when its index contents differ from `fresh`'s (otherwise it is the same
+//! database value and the case would be a duplicate).
 
-pub fn run(_tier: &str) -> i32 {
-    eprintln!("MACHINERY-ERROR C02 is not built yet");
-    2
+use std::collections::{BTreeMap, BTreeSet, HashMap, HashSet};
+use std::sync::atomic::{AtomicU64, Ordering as AO};
+
+use serde_json::{json, Value};
+use vcore::exec::{self, Out};
+use vcore::report::Report;
+use vcore::util;
+use vibesql_storage::Database;
+
+use crate::tw::{self, V};
+
+pub const CREATE: &str = "CREATE TABLE t (id INT, v INT, w INT, s VARCHAR(10), d DOUBLE)";
+pub const BASE_ROWS: &str = "INSERT INTO t VALUES (1, 0, 1, 'a', 0.5), (2, 1, 0, 'ab', 1), (3, 1, 1, 'abc', 1.5), (4, NULL, 2, NULL, NULL), (5, 2, NULL, 'b', 0)";
+
+// ------------------------------------------------------------------------------------------------
+// index shapes
+
+#[derive(Clone, Debug)]
+pub struct Shape {
+    pub key: &'static str,
+    pub ddl: &'static [&'static str],
+    pub names: &'static [&'static str],
+    pub lead: &'static str,
+    pub other: &'static str,
+    pub unique: bool,
+    /// required order of `list_indexes_for_table` (two-index shapes; HashMap order is random per database)
+    pub order: Option<&'static [&'static str]>,
 }
 
-pub fn replay(_case: &serde_json::Value) -> i32 {
-    eprintln!("MACHINERY-ERROR C02 is not built yet");
-    2
+const fn sh(key: &'static str, ddl: &'static [&'static str], names: &'static [&'static str], lead: &'static str, other: &'static str) -> Shape {
+    Shape { key, ddl, names, lead, other, unique: false, order: None }
+}
+
+pub fn all_shapes() -> Vec<Shape> {
+    vec![
+        sh("v", &["CREATE INDEX i1 ON t (v)"], &["I1"], "v", "w"),
+        sh("v,w", &["CREATE INDEX i1 ON t (v, w)"], &["I1"], "v", "w"),
+        sh("s(2)", &["CREATE INDEX i1 ON t (s(2))"], &["I1"], "s", "v"),
+        sh("vD,w", &["CREATE INDEX i1 ON t (v DESC, w)"], &["I1"], "v", "w"),
+        Shape { order: Some(&["I1", "I2"]), ..sh("v+w/v-first", &["CREATE INDEX i1 ON t (v)", "CREATE INDEX i2 ON t (w)"], &["I1", "I2"], "v", "w") },
+        sh("vD", &["CREATE INDEX i1 ON t (v DESC)"], &["I1"], "v", "w"),
+        sh("v,wD", &["CREATE INDEX i1 ON t (v, w DESC)"], &["I1"], "v", "w"),
+        sh("vD,wD", &["CREATE INDEX i1 ON t (v DESC, w DESC)"], &["I1"], "v", "w"),
+        sh("w,v", &["CREATE INDEX i1 ON t (w, v)"], &["I1"], "w", "v"),
+        sh("s", &["CREATE INDEX i1 ON t (s)"], &["I1"], "s", "v"),
+        sh("s(1)", &["CREATE INDEX i1 ON t (s(1))"], &["I1"], "s", "v"),
+        sh("s,v", &["CREATE INDEX i1 ON t (s, v)"], &["I1"], "s", "v"),
+        sh("s(2),v", &["CREATE INDEX i1 ON t (s(2), v)"], &["I1"], "s", "v"),
+        Shape { unique: true, ..sh("uniq(v)", &["CREATE UNIQUE INDEX i1 ON t (v)"], &["I1"], "v", "w") },
+        Shape { unique: true, ..sh("uniq(vD,w)", &["CREATE UNIQUE INDEX i1 ON t (v DESC, w)"], &["I1"], "v", "w") },
+        Shape { order: Some(&["I2", "I1"]), ..sh("v+w/w-first", &["CREATE INDEX i1 ON t (v)", "CREATE INDEX i2 ON t (w)"], &["I1", "I2"], "v", "w") },
+        sh("d", &["CREATE INDEX i1 ON t (d)"], &["I1"], "d", "w"),
+        sh("d,w", &["CREATE INDEX i1 ON t (d, w)"], &["I1"], "d", "w"),
+    ]
+}
+
+fn shape_by_key(k: &str) -> Option<Shape> {
+    all_shapes().into_iter().find(|s| s.key == k)
+}
+
+// ------------------------------------------------------------------------------------------------
+// history alphabet
+
+pub fn alphabet(thorough: bool) -> Vec<&'static str> {
+    let mut a = vec![
+        "INSERT INTO t VALUES (6, 3, 1, 'abd', 2.5)",
+        "INSERT INTO t VALUES (7, 1, 2, 'a', 1.0)",
+        "INSERT INTO t VALUES (8, 9007199254740993, 0, 'abcd', 3), (9, 9007199254740992, 0, 'b', 0.5)",
+        "UPDATE t SET v = 2 WHERE id = 1",
+        "UPDATE t SET v = v + 1",
+        "UPDATE t SET s = 'abz' WHERE id = 2",
+        "UPDATE t SET v = NULL, d = 1 WHERE id = 2",
+        "DELETE FROM t WHERE id = 1",
+        "DELETE FROM t WHERE v > 1",
+        "DELETE FROM t",
+        "#ANALYZE",
+    ];
+    if thorough {
+        a.extend([
+            "INSERT INTO t VALUES (10, NULL, NULL, NULL, NULL)",
+            "UPDATE t SET w = w + 1 WHERE v = 1",
+            "UPDATE t SET s = NULL, d = NULL WHERE id = 3",
+            "DELETE FROM t WHERE v IS NULL",
+            "DELETE FROM t WHERE s >= 'ab'",
+        ]);
+    }
+    a
+}
+
+fn hist_kinds(h: &[String]) -> String {
+    let mut k = BTreeSet::new();
+    for s in h {
+        let w = s.split_whitespace().next().unwrap_or("");
+        k.insert(if s == "DELETE FROM t" { "DELETE-ALL".to_string() } else { w.trim_start_matches('#').to_string() });
+    }
+    k.into_iter().collect::<Vec<_>>().join("+")
+}
+
+// ------------------------------------------------------------------------------------------------
+// query menu
+
+#[derive(Clone, Debug)]
+pub struct Q {
+    pub sql: String,
+    pub fam: &'static str,
+    pub ops: String,
+    pub lit: String,
+    pub ctx: &'static str,
+    /// ORDER BY keys as (column position in `SELECT *`, descending)
+    pub order: Vec<(usize, bool)>,
+    /// (limit, offset) and the same query without them
+    pub limit: Option<(usize, usize, String)>,
+    /// parsed once (filled by `finish_menu`)
+    pub stmt: Option<vibesql_ast::SelectStmt>,
+    /// menu position of the unlimited variant
+    pub base: Option<usize>,
+    /// member of the core menu (the part that is also run at the deepest history level)
+    pub core: bool,
+}
+
+#[derive(Clone)]
+struct Lit {
+    sql: &'static str,
+    class: &'static str,
+}
+
+const fn l(sql: &'static str, class: &'static str) -> Lit {
+    Lit { sql, class }
+}
+
+fn num_lits() -> Vec<Lit> {
+    vec![
+        l("NULL", "null"),
+        l("0", "zero"),
+        l("1", "int"),
+        l("2", "int"),
+        l("3", "int"),
+        l("0.5", "frac"),
+        l("1.0", "intfloat"),
+        l("1.5", "frac"),
+        l("9007199254740992", "big"),
+        l("9007199254740993", "big"),
+        l("9223372036854775807", "big"),
+    ]
+}
+
+fn str_lits() -> Vec<Lit> {
+    vec![
+        l("NULL", "null"),
+        l("''", "len0"),
+        l("'a'", "len1"),
+        l("'ab'", "len2"),
+        l("'abc'", "len3"),
+        l("'abd'", "len3"),
+        l("'abcd'", "len4"),
+        l("'b'", "len1"),
+        l("'aa'", "len2"),
+    ]
+}
+
+fn col_pos(c: &str) -> usize {
+    match c {
+        "id" => 0,
+        "v" => 1,
+        "w" => 2,
+        "s" => 3,
+        "d" => 4,
+        _ => unreachable!(),
+    }
+}
+
+fn classes(ls: &[&Lit]) -> String {
+    let mut s: BTreeSet<&str> = BTreeSet::new();
+    for x in ls {
+        s.insert(x.class);
+    }
+    s.into_iter().collect::<Vec<_>>().join("+")
+}
+
+const OPS5: [&str; 5] = ["=", "<", "<=", ">", ">="];
+
+/// every predicate of the menu with its signature features
+fn predicates(c: &str, o: &str, thorough: bool) -> Vec<(String, &'static str, String, String, bool)> {
+    // (predicate, family, ops, literal classes, wide: run in all contexts)
+    let is_str = c == "s";
+    let lits = if is_str { str_lits() } else { num_lits() };
+    let mut out: Vec<(String, &'static str, String, String, bool)> = vec![];
+    // A: single atoms, both operand orders
+    for op in ["=", "<>", "<", "<=", ">", ">="] {
+        for x in &lits {
+            out.push((format!("{} {} {}", c, op, x.sql), "atom", op.to_string(), x.class.to_string(), true));
+            out.push((format!("{} {} {}", x.sql, op, c), "atom", format!("rev{}", op), x.class.to_string(), thorough));
+        }
+    }
+    // B: BETWEEN
+    let pairs: Vec<(&str, &str)> = if is_str {
+        vec![("'a'", "'ab'"), ("'ab'", "'ab'"), ("'ab'", "'a'"), ("'a'", "'abc'"), ("'abc'", "'b'"), ("''", "'abcd'"), ("NULL", "'b'"), ("'a'", "NULL"), ("'aa'", "'abd'"), ("'abcd'", "'abd'")]
+    } else {
+        vec![
+            ("0", "1"),
+            ("1", "1"),
+            ("1", "2"),
+            ("2", "1"),
+            ("0", "3"),
+            ("0.5", "1.5"),
+            ("1.0", "2"),
+            ("NULL", "1"),
+            ("1", "NULL"),
+            ("0", "9007199254740993"),
+            ("9007199254740992", "9223372036854775807"),
+            ("3", "9"),
+            ("0", "0"),
+        ]
+    };
+    let find = |s: &str| lits.iter().find(|x| x.sql == s).cloned().unwrap_or(Lit { sql: "9", class: "int" });
+    for (lo, hi) in &pairs {
+        let cl = classes(&[&find(lo), &find(hi)]);
+        for (kw, name) in [("BETWEEN", "between"), ("NOT BETWEEN", "not_between"), ("BETWEEN SYMMETRIC", "between_symmetric")] {
+            out.push((format!("{} {} {} AND {}", c, kw, lo, hi), "between", name.to_string(), cl.clone(), true));
+        }
+    }
+    // C: IN lists
+    let lists: Vec<Vec<&str>> = if is_str {
+        vec![vec!["'a'"], vec!["'a'", "'b'"], vec!["'ab'", "'ab'"], vec!["'abc'"], vec!["'abc'", "'abd'"], vec!["'a'", "NULL"], vec!["NULL"], vec!["'zz'"], vec!["'zz'", "NULL"], vec!["'abcd'", "'ab'"], vec!["''", "'b'", "'a'"]]
+    } else {
+        vec![
+            vec!["1"],
+            vec!["0", "1"],
+            vec!["1", "1"],
+            vec!["1", "1.0"],
+            vec!["1.0", "1"],
+            vec!["0", "2", "1"],
+            vec!["1", "NULL"],
+            vec!["NULL"],
+            vec!["5"],
+            vec!["5", "NULL"],
+            vec!["9007199254740993"],
+            vec!["9007199254740992", "9007199254740993"],
+            vec!["0.5"],
+            vec!["3", "2", "1", "0"],
+            vec!["0", "0.0"],
+        ]
+    };
+    for lst in &lists {
+        let ls: Vec<Lit> = lst.iter().map(|s| lits.iter().find(|x| x.sql == *s).cloned().unwrap_or(Lit { sql: "?", class: if is_str { "len2" } else if s.contains('.') { "intfloat" } else { "int" } })).collect();
+        let refs: Vec<&Lit> = ls.iter().collect();
+        let mut cl = classes(&refs);
+        let mut uniq: BTreeSet<&str> = BTreeSet::new();
+        if lst.iter().any(|x| !uniq.insert(x)) {
+            cl.push_str("+dup");
+        }
+        for (kw, name) in [("IN", "in"), ("NOT IN", "not_in")] {
+            out.push((format!("{} {} ({})", c, kw, lst.join(", ")), "inlist", name.to_string(), cl.clone(), true));
+        }
+    }
+    // D: two atoms on the indexed column
+    let mut small: Vec<Lit> = if is_str { vec![l("'a'", "len1"), l("'ab'", "len2"), l("NULL", "null"), l("'abc'", "len3")] } else { vec![l("0", "zero"), l("1", "int"), l("NULL", "null"), l("2", "int")] };
+    if !thorough {
+        small.truncate(3);
+    }
+    let mut atoms: Vec<(String, String, Lit)> = vec![];
+    for op in OPS5 {
+        for x in &small {
+            atoms.push((format!("{} {} {}", c, op, x.sql), op.to_string(), x.clone()));
+        }
+    }
+    for (op, x) in [("<", &small[1]), (">=", &small[0]), ("=", &small[1]), (">", &small[2])] {
+        atoms.push((format!("{} {} {}", x.sql, op, c), format!("rev{}", op), x.clone()));
+    }
+    if thorough && !is_str {
+        for (op, x) in [(">", l("0.5", "frac")), ("<=", l("1.0", "intfloat")), (">=", l("9007199254740993", "big"))] {
+            atoms.push((format!("{} {} {}", c, op, x.sql), op.to_string(), x));
+        }
+    }
+    for (a, aop, al) in &atoms {
+        for (b, bop, bl) in &atoms {
+            let cl = classes(&[al, bl]);
+            out.push((format!("{} AND {}", a, b), "and2", format!("{}&{}", aop, bop), cl.clone(), false));
+            if thorough || a == b || bl.class == "null" {
+                out.push((format!("{} OR {}", a, b), "or2", format!("{}|{}", aop, bop), cl, false));
+            }
+        }
+    }
+    // E: conjunct / disjunct on another column
+    let one = if is_str { "'ab'" } else { "1" };
+    let zero = if is_str { "'a'" } else { "0" };
+    let mut catoms: Vec<(String, String)> = vec![];
+    for op in OPS5 {
+        catoms.push((format!("{} {} {}", c, op, one), op.to_string()));
+        catoms.push((format!("{} {} NULL", c, op), format!("{}null", op)));
+    }
+    catoms.push((format!("{} IN ({}, {})", c, zero, one), "in".into()));
+    catoms.push((format!("{} BETWEEN {} AND {}", c, zero, one), "between".into()));
+    let o_one = if o == "s" { "'ab'" } else { "1" };
+    let oatoms: Vec<(String, &str)> = vec![(format!("{} = {}", o, o_one), "o="), (format!("{} IS NULL", o), "o_isnull"), (format!("{} > {}", o, if o == "s" { "'a'" } else { "0" }), "o>"), ("id > 2".to_string(), "id>")];
+    let n_o = if thorough { oatoms.len() } else { 2 };
+    for (ca, cop) in &catoms {
+        for (oa, oop) in oatoms.iter().take(n_o) {
+            out.push((format!("{} AND {}", ca, oa), "and_other", format!("{}&{}", cop, oop), "small".into(), false));
+            out.push((format!("{} AND {}", oa, ca), "and_other", format!("{}&{}", oop, cop), "small".into(), false));
+            out.push((format!("{} OR {}", ca, oa), "or_other", format!("{}|{}", cop, oop), "small".into(), false));
+            out.push((format!("{} OR {}", oa, ca), "or_other", format!("{}|{}", oop, cop), "small".into(), false));
+        }
+    }
+    // G: assorted shapes that sit next to the extractable ones
+    let two = if is_str { "'abc'" } else { "2" };
+    let misc: Vec<(String, &str)> = vec![
+        (format!("{c} > {zero} AND {c} < {two} AND {o} = {o_one}"), "and3"),
+        (format!("({c} > {zero} AND {c} < {one}) OR {c} = {two}"), "and_or"),
+        (format!("{c} > {zero} AND ({c} < {one} OR {c} = {two})"), "and_paren_or"),
+        (format!("NOT ({c} > {one})"), "not"),
+        (format!("{c} > {zero} AND NOT ({c} > {one})"), "and_not"),
+        (format!("{c} IS NULL"), "is_null"),
+        (format!("{c} IS NOT NULL"), "is_not_null"),
+        (format!("{c} IS NULL OR {c} > {zero}"), "isnull_or"),
+        (format!("{c} = {o}"), "col=col"),
+        (format!("{c} > {o}"), "col>col"),
+        (format!("{c} >= {zero} AND {c} <= {o}"), "range_col"),
+        (format!("{c} BETWEEN {zero} AND {one} AND {c} > {zero}"), "between_and"),
+        (format!("{c} IN ({zero}, {one}) AND {c} > {zero}"), "in_and"),
+        (format!("{c} > {zero} AND {c} IN ({zero}, {one})"), "and_in"),
+        (format!("{c} IN ({zero}, {one}) AND {c} IN ({one}, {two})"), "in_and_in"),
+        (format!("{c} = {one} AND {c} = {two}"), "eq_and_eq"),
+        (format!("{c} BETWEEN {zero} AND {two} AND {c} BETWEEN {one} AND {two}"), "between_and_between"),
+        (format!("({c} > {zero} AND {c} < {two}) AND ({c} >= {one})"), "nested_and"),
+        (format!("{c} > {zero} AND {c} > {one} AND {c} < {two}"), "and3_same"),
+        (format!("{c} <= {two} AND {c} < {one} AND {c} > {zero}"), "and3_same"),
+    ];
+    for (p, name) in misc {
+        out.push((p, "misc", name.to_string(), "small".into(), true));
+    }
+    if !is_str {
+        for (p, name) in [(format!("{c} + 0 = 1"), "expr"), (format!("{c} = 1 + 0"), "expr_rhs"), (format!("{c} > 0 - 1"), "expr_rhs"), (format!("{c} IN (1, 1 + 1)"), "in_expr")] {
+            out.push((p, "misc", name.to_string(), "small".into(), true));
+        }
+    }
+    out
+}
+
+pub fn menu(c: &str, o: &str, thorough: bool) -> Vec<Q> {
+    let mut qs: Vec<Q> = vec![];
+    for (p, fam, ops, lit, wide) in predicates(c, o, thorough) {
+        // materialised path (ORDER BY a column the index does not cover): the scan's "WHERE already applied" flag is honoured here
+        qs.push(Q { sql: format!("SELECT * FROM t WHERE {} ORDER BY id", p), fam, ops: ops.clone(), lit: lit.clone(), ctx: "order_by_id", order: vec![(0, false)], limit: None, stmt: None, base: None, core: false });
+        if wide {
+            qs.push(Q { sql: format!("SELECT * FROM t WHERE {}", p), fam, ops: ops.clone(), lit: lit.clone(), ctx: "plain", order: vec![], limit: None, stmt: None, base: None, core: false });
+            qs.push(Q { sql: format!("SELECT COUNT(*) FROM t WHERE {}", p), fam, ops: ops.clone(), lit: lit.clone(), ctx: "count", order: vec![], limit: None, stmt: None, base: None, core: false });
+            if thorough {
+                qs.push(Q { sql: format!("SELECT DISTINCT * FROM t WHERE {}", p), fam, ops: ops.clone(), lit: lit.clone(), ctx: "distinct", order: vec![], limit: None, stmt: None, base: None, core: false });
+            }
+        }
+    }
+    // H: the same atoms reached through other routes into the table scan: alias / qualified names, derived table,
+    // IN-subquery, EXISTS, self-join, GROUP BY, set operation, scalar subquery
+    {
+        let is_str = c == "s";
+        let (zero, one, two) = if is_str { ("'a'", "'ab'", "'abc'") } else { ("0", "1", "2") };
+        let atoms: Vec<(String, &str)> = vec![
+            (format!("{{}} <= {one}"), "<="),
+            (format!("{{}} < {one}"), "<"),
+            (format!("{{}} > {zero}"), ">"),
+            (format!("{{}} = {one}"), "="),
+            (format!("{{}} IN ({one}, {two}, NULL)"), "in_null"),
+            (format!("{{}} IN ({zero}, {one})"), "in"),
+            (format!("{{}} BETWEEN {zero} AND {one}"), "between"),
+            (format!("{{}} >= {one} AND {{}} <= {two}"), "range"),
+            (format!("{{}} IS NULL"), "is_null"),
+        ];
+        for (tpl, aname) in &atoms {
+            let p = |col: &str| tpl.replace("{}", col);
+            let plain_c = p(c);
+            let forms: Vec<(String, &'static str, Vec<(usize, bool)>)> = vec![
+                (format!("SELECT * FROM t AS x WHERE {} ORDER BY x.id", p(&format!("x.{}", c))), "alias", vec![(0, false)]),
+                (format!("SELECT * FROM t WHERE {} ORDER BY t.id", p(&format!("t.{}", c))), "qualified", vec![(0, false)]),
+                (format!("SELECT * FROM (SELECT * FROM t WHERE {}) q ORDER BY id", plain_c), "derived_table", vec![(0, false)]),
+                (format!("SELECT * FROM t WHERE id IN (SELECT id FROM t WHERE {}) ORDER BY id", plain_c), "in_subquery", vec![(0, false)]),
+                (format!("SELECT * FROM t a WHERE EXISTS (SELECT 1 FROM t b WHERE b.id = a.id AND {}) ORDER BY id", p(&format!("b.{}", c))), "exists", vec![(0, false)]),
+                (format!("SELECT a.id, b.id FROM t a JOIN t b ON a.id = b.id WHERE {} ORDER BY a.id", p(&format!("a.{}", c))), "self_join", vec![(0, false)]),
+                (format!("SELECT a.id, b.id FROM t a, t b WHERE a.{o} = b.{o} AND {}", p(&format!("b.{}", c))), "comma_join", vec![]),
+                (format!("SELECT {c}, COUNT(*), MAX(id) FROM t WHERE {} GROUP BY {c}", plain_c), "group_by", vec![]),
+                (format!("SELECT id FROM t WHERE {} UNION ALL SELECT id FROM t WHERE {o} IS NULL", plain_c), "union_all", vec![]),
+                (format!("SELECT id, (SELECT COUNT(*) FROM t b WHERE {}) FROM t ORDER BY id", p(&format!("b.{}", c))), "scalar_subquery", vec![(0, false)]),
+                (format!("SELECT COUNT(*), MIN({c}), MAX({c}) FROM t WHERE {}", plain_c), "aggregates", vec![]),
+            ];
+            for (sql, fname, order) in forms {
+                qs.push(Q { sql, fam: "embedded", ops: fname.to_string(), lit: aname.to_string(), ctx: "embedded", order, limit: None, stmt: None, base: None, core: false });
+            }
+        }
+    }
+    // F: ORDER BY with / without WHERE and LIMIT
+    let is_str = c == "s";
+    let (zero, one, two) = if is_str { ("'a'", "'ab'", "'abc'") } else { ("0", "1", "2") };
+    let mut orders: Vec<(Vec<(&str, bool)>, &str)> = vec![
+        (vec![(c, false)], "c"),
+        (vec![(c, true)], "cD"),
+        (vec![(c, false), (o, false)], "c,o"),
+        (vec![(c, true), (o, false)], "cD,o"),
+        (vec![(c, false), (o, true)], "c,oD"),
+        (vec![(c, true), (o, true)], "cD,oD"),
+        (vec![(o, false)], "o"),
+        (vec![(o, false), (c, false)], "o,c"),
+        (vec![(c, false), ("id", true)], "c,idD"),
+        (vec![("id", true)], "idD"),
+    ];
+    let o_one = if o == "s" { "'ab'" } else { "1" };
+    let mut wheres: Vec<(String, &str)> = vec![
+        (String::new(), "none"),
+        (format!(" WHERE {c} > {zero}"), ">"),
+        (format!(" WHERE {c} >= {one} AND {c} <= {two}"), "range"),
+        (format!(" WHERE {c} IN ({two}, {zero}, {one})"), "in"),
+        (format!(" WHERE {o} = {o_one}"), "other="),
+        (format!(" WHERE {c} IS NOT NULL"), "is_not_null"),
+        (format!(" WHERE {c} < {two}"), "<"),
+        (format!(" WHERE {c} = {one}"), "="),
+    ];
+    let mut limits: Vec<(Option<(usize, usize)>, &str)> = vec![(None, "none"), (Some((2, 0)), "limit2"), (Some((1, 1)), "limit1_offset1"), (Some((0, 0)), "limit0"), (Some((10, 2)), "limit10_offset2")];
+    if !thorough {
+        orders.truncate(7);
+        wheres.truncate(5);
+        limits.truncate(4);
+    }
+    for (ord, oname) in &orders {
+        let ob = ord.iter().map(|(col, d)| format!("{}{}", col, if *d { " DESC" } else { "" })).collect::<Vec<_>>().join(", ");
+        let keys: Vec<(usize, bool)> = ord.iter().map(|(col, d)| (col_pos(col), *d)).collect();
+        for (w, wname) in &wheres {
+            for (lim, lname) in &limits {
+                let base = format!("SELECT * FROM t{} ORDER BY {}", w, ob);
+                let (sql, limit) = match lim {
+                    None => (base.clone(), None),
+                    Some((n, 0)) => (format!("{} LIMIT {}", base, n), Some((*n, 0usize, base.clone()))),
+                    Some((n, m)) => (format!("{} LIMIT {} OFFSET {}", base, n, m), Some((*n, *m, base.clone()))),
+                };
+                qs.push(Q { sql, fam: "order_by", ops: oname.to_string(), lit: wname.to_string(), ctx: lname, order: keys.clone(), limit, stmt: None, base: None, core: false });
+            }
+        }
+    }
+    finish_menu(qs)
+}
+
+fn finish_menu(mut qs: Vec<Q>) -> Vec<Q> {
+    let pos: HashMap<String, usize> = qs.iter().enumerate().map(|(i, q)| (q.sql.clone(), i)).collect();
+    for q in qs.iter_mut() {
+        if let Ok(vibesql_ast::Statement::Select(st)) = exec::parse(&q.sql) {
+            q.stmt = Some(*st);
+        }
+        if let Some((_, _, b)) = &q.limit {
+            q.base = pos.get(b).copied();
+        }
+        q.core = match (q.fam, q.ctx) {
+            ("atom", "order_by_id") => !q.ops.starts_with("rev") && !matches!(q.lit.as_str(), "null" | "frac" | "len0"),
+            ("atom", "count") => matches!(q.ops.as_str(), "=" | "<" | ">") && matches!(q.lit.as_str(), "int" | "len2"),
+            ("inlist", "order_by_id") => q.ops == "in",
+            ("between", "order_by_id") => q.ops == "between",
+            ("misc", "order_by_id") => true,
+            ("order_by", "none") => true,
+            ("order_by", "limit2") => q.lit == "none" || q.lit == ">",
+            _ => false,
+        };
+    }
+    qs
+}
+
+fn run_q(db: &Database, q: &Q) -> Out {
+    match &q.stmt {
+        Some(st) => exec::select_stmt(db, st),
+        None => exec::select(db, &q.sql),
+    }
+}
+
+// ------------------------------------------------------------------------------------------------
+// the oracle for one query on one (plain, indexed) pair
+
+#[derive(Default)]
+struct Tally {
+    evaluated: u64,
+    both_err: u64,
+    plain_err_only: u64,
+    nonempty: u64,
+    outcomes: HashSet<u64>,
+}
+
+/// None = the query agrees; Some(what) = index dependence observed.
+fn judge(q_sql: &str, order: &[(usize, bool)], limit: &Option<(usize, usize, String)>, plain: &Database, idx: &Database) -> Option<String> {
+    let rp = exec::select(plain, q_sql);
+    let ri = exec::select(idx, q_sql);
+    let mut t = Tally::default();
+    judge_out(order, limit.is_some(), &rp, &ri, &|| limit.as_ref().map(|(_, _, b)| exec::select(plain, b)), &mut t)
+}
+
+fn judge_out(order: &[(usize, bool)], limited: bool, rp: &Out, ri: &Out, plain_unlimited: &dyn Fn() -> Option<Out>, t: &mut Tally) -> Option<String> {
+    t.evaluated += 1;
+    let (rows_p, rows_i) = match (rp, ri) {
+        (Out::Rows(a), Out::Rows(b)) => (a, b),
+        (Out::Rows(_), other) => return Some(format!("without the index the query returns {} rows, with the index it fails: {}", rp.rows().map(|r| r.len()).unwrap_or(0), other.brief())),
+        (_, Out::Rows(_)) => {
+            t.plain_err_only += 1;
+            return None;
+        }
+        _ => {
+            t.both_err += 1;
+            return None;
+        }
+    };
+    let desc: Vec<bool> = order.iter().map(|(_, d)| *d).collect();
+    let keys = |rows: &[Vec<V>]| -> Vec<Vec<V>> { rows.iter().map(|r| order.iter().map(|(p, _)| r[*p].clone()).collect()).collect() };
+    let ii: Vec<Vec<V>> = rows_i.iter().map(|r| tw::row_of(r)).collect();
+    if !order.is_empty() {
+        let ki = keys(&ii);
+        if let Some(pos) = tw::first_unsorted(&ki, &desc) {
+            return Some(format!("with the index the result is not sorted by the ORDER BY keys (NULLs last) at row {}: {}  [without the index: {}]", pos, tw::fmt_rows(&ii), rp.brief()));
+        }
+    }
+    if rows_p == rows_i {
+        // identical sequences: equal bags, equal key sequences, and (limited) rows of the plain twin's own result
+        return None;
+    }
+    let pp: Vec<Vec<V>> = rows_p.iter().map(|r| tw::row_of(r)).collect();
+    if !limited {
+        if tw::bag_of(&pp) != tw::bag_of(&ii) {
+            return Some(format!("different rows: without the index {} , with the index {}", tw::fmt_rows(&pp), tw::fmt_rows(&ii)));
+        }
+    } else {
+        let (kp, ki) = (keys(&pp), keys(&ii));
+        if kp.len() != ki.len() || !kp.iter().zip(&ki).all(|(a, b)| tw::keys_equal(a, b)) {
+            return Some(format!("different ORDER BY key sequence under LIMIT/OFFSET: without the index {} , with the index {}", tw::fmt_rows(&pp), tw::fmt_rows(&ii)));
+        }
+        if let Some(full) = plain_unlimited().as_ref().and_then(tw::rows_v) {
+            if !tw::sub_bag(&tw::bag_of(&ii), &tw::bag_of(&full)) {
+                return Some(format!("rows under LIMIT/OFFSET with the index {} are not all rows of the unlimited result without the index {}", tw::fmt_rows(&ii), tw::fmt_rows(&full)));
+            }
+        }
+    }
+    None
+}
+
+/// non-vacuity bookkeeping for the index-free result of one query
+fn tally_plain(rp: &Out, t: &mut Tally) {
+    if let Out::Rows(rows) = rp {
+        if !rows.is_empty() {
+            t.nonempty += 1;
+        }
+        t.outcomes.insert(util::hash64(format!("{:?}", vcore::val::bag(rows)).as_bytes()));
+    }
+}
+
+// ------------------------------------------------------------------------------------------------
+// construction of twins, cases, replay
+
+fn index_order(db: &Database) -> Vec<String> {
+    db.list_indexes_for_table("T")
+}
+
+/// plain root with the prelude; for two-index shapes a root whose HashMap order yields `shape.order`
+fn build_root(shape: &Shape) -> Result<(Database, Database), String> {
+    for _ in 0..2000 {
+        let plain = exec::fresh(&[CREATE, BASE_ROWS]);
+        let mut idx = plain.clone();
+        for d in shape.ddl {
+            let o = exec::exec(&mut idx, d);
+            if !o.is_ok() {
+                return Err(format!("index DDL `{}` rejected on the prelude rows: {}", d, o.brief()));
+            }
+        }
+        match shape.order {
+            None => return Ok((plain, idx)),
+            Some(want) => {
+                let got = index_order(&idx);
+                if got.iter().map(|s| s.as_str()).collect::<Vec<_>>() == want {
+                    return Ok((plain, idx));
+                }
+            }
+        }
+    }
+    Err(format!("could not obtain index order {:?} in 2000 attempts", shape.order))
+}
+
+fn make_fresh(plain: &Database, shape: &Shape) -> Option<Database> {
+    let mut f = plain.clone();
+    for d in shape.ddl {
+        if !exec::exec(&mut f, d).is_ok() {
+            return None; // e.g. UNIQUE index over rows with duplicates: no such twin exists
+        }
+    }
+    Some(f)
+}
+
+fn case_json(shape: &Shape, placement: &str, hist: &[String], q: &Q) -> Value {
+    json!({
+        "prelude": [CREATE, BASE_ROWS],
+        "shape": shape.key,
+        "index_ddl": shape.ddl,
+        "placement": placement,
+        "steps": hist,
+        "query": q.sql,
+        "order": q.order.iter().map(|(p, d)| json!([p, d])).collect::<Vec<_>>(),
+        "limit": q.limit.as_ref().map(|(n, m, b)| json!([n, m, b])),
+        "note": "placement=fresh: run prelude+steps, then index_ddl; placement=maintained: prelude, index_ddl, then steps. Compare `query` with the same history without index_ddl."
+    })
+}
+
+/// Re-execute a recorded case from scratch. Ok(None) = agrees, Ok(Some(what)) = fails.
+fn eval_case(case: &Value, verbose: bool) -> Result<Option<String>, String> {
+    let shape = shape_by_key(case["shape"].as_str().unwrap_or("")).ok_or("unknown shape")?;
+    let steps: Vec<String> = case["steps"].as_array().map(|a| a.iter().filter_map(|x| x.as_str().map(|s| s.to_string())).collect()).unwrap_or_default();
+    let (mut plain, mut maint) = build_root(&shape)?;
+    let mut alive = true;
+    for s in &steps {
+        let a = tw::step(&mut plain, s);
+        let b = if alive { tw::step(&mut maint, s) } else { a.clone() };
+        if verbose {
+            println!("{}\n   => plain: {}   indexed: {}", s, a.brief(), b.brief());
+        }
+        if a.class() != b.class() {
+            alive = false;
+        }
+    }
+    let idx = match case["placement"].as_str() {
+        Some("fresh") => make_fresh(&plain, &shape).ok_or("index DDL rejected on the final rows")?,
+        _ => {
+            if !alive {
+                return Err("maintained twin diverged (constraint)".into());
+            }
+            maint
+        }
+    };
+    let order: Vec<(usize, bool)> = case["order"].as_array().map(|a| a.iter().map(|x| (x[0].as_u64().unwrap_or(0) as usize, x[1].as_bool().unwrap_or(false))).collect()).unwrap_or_default();
+    let limit = case["limit"].as_array().map(|a| (a[0].as_u64().unwrap_or(0) as usize, a[1].as_u64().unwrap_or(0) as usize, a[2].as_str().unwrap_or("").to_string()));
+    let sql = case["query"].as_str().unwrap_or("");
+    if verbose {
+        println!("-- table: {}", exec::select(&plain, "SELECT * FROM t").brief());
+        println!("-- index: {}", shape.ddl.join("; "));
+        println!("{}\n   => without index: {}\n   => with index:    {}", sql, exec::select(&plain, sql).brief(), exec::select(&idx, sql).brief());
+    }
+    Ok(judge(sql, &order, &limit, &plain, &idx))
+}
+
+pub fn replay(case: &Value) -> i32 {
+    match eval_case(case, true) {
+        Ok(Some(w)) => {
+            println!("VERDICT: violated — {}", w);
+            1
+        }
+        Ok(None) => {
+            println!("VERDICT: holds on this tree");
+            0
+        }
+        Err(e) => {
+            eprintln!("MACHINERY-ERROR {}", e);
+            2
+        }
+    }
+}
+
+// ------------------------------------------------------------------------------------------------
+// exploration
+
+struct Node {
+    /// one index-free database per shape (equal values; only the HashMap seeds differ, which fixes
+    /// the listing order of the indexes a twin derived from it will have)
+    plains: Vec<Database>,
+    maints: Vec<Option<Database>>,
+    hist: Vec<String>,
+    fp_plain: u128,
+    fp_maints: Vec<u128>,
+}
+
+struct Fail {
+    sig: Vec<(&'static str, String)>,
+    what: String,
+    case: Value,
+}
+
+#[derive(Default)]
+struct ItemResult {
+    fails: Vec<Fail>,
+    tally: Tally,
+    fresh_cases: u64,
+    maint_cases: u64,
+    no_fresh_twin: u64,
+    maint_done: Vec<(usize, u128)>,
+}
+
+fn beyond_2p53(sql: &str, hist: &[String]) -> &'static str {
+    let lit = sql.contains("90071992547409") || sql.contains("9223372036854775807");
+    let data = hist.iter().any(|h| h.contains("90071992547409"));
+    match (data, lit) {
+        (false, false) => "no",
+        (false, true) => "literal",
+        (true, false) => "data",
+        (true, true) => "data+literal",
+    }
+}
+
+fn fp_node(n: &mut Node) {
+    // whole-database fingerprints; statistics carry a timestamp, so states with statistics are keyed by their history
+    let has_stats = n.plains[0].get_table("T").map(|t| t.get_statistics().is_some()).unwrap_or(false);
+    if has_stats {
+        let h = util::hash128(format!("H{}", n.hist.join(";")).as_bytes());
+        n.fp_plain = h;
+        n.fp_maints = n.maints.iter().map(|m| if m.is_some() { h } else { 0 }).collect();
+    } else {
+        n.fp_plain = vcore::fp::fingerprint(&n.plains[0]);
+        n.fp_maints = n.maints.iter().map(|m| m.as_ref().map(vcore::fp::fingerprint).unwrap_or(0)).collect();
+    }
+}
+
+fn node_key(n: &Node) -> u128 {
+    util::hash128(format!("{:x}|{:?}", n.fp_plain, n.fp_maints).as_bytes())
+}
+
+/// One work item: a state × a group of shapes that share a query menu.
+fn check_group(n: &Node, shapes: &[Shape], members: &[usize], menu: &[Q], core_only: bool, do_fresh: bool, maint_seen: &HashSet<(usize, u128)>, range: (usize, usize), expired: &dyn Fn() -> bool) -> Option<ItemResult> {
+    let mut r = ItemResult::default();
+    // twins to examine
+    let mut todo: Vec<(usize, Database, &'static str)> = vec![];
+    for &k in members {
+        let shape = &shapes[k];
+        let names: Vec<String> = shape.names.iter().map(|s| s.to_string()).collect();
+        let fresh = make_fresh(&n.plains[k], shape);
+        if fresh.is_none() && range.0 == 0 {
+            r.no_fresh_twin += 1;
+        }
+        if let Some(m) = &n.maints[k] {
+            let differs = match &fresh {
+                Some(f) => tw::index_image(m, &names) != tw::index_image(f, &names),
+                None => true,
+            };
+            if !n.hist.is_empty() && differs && !maint_seen.contains(&(k, n.fp_maints[k])) {
+                r.maint_done.push((k, n.fp_maints[k]));
+                todo.push((k, m.clone(), "maintained"));
+            }
+        }
+        if do_fresh {
+            if let Some(f) = fresh {
+                todo.push((k, f, "fresh"));
+            }
+        }
+    }
+    if todo.is_empty() {
+        return Some(r);
+    }
+    let plain = &n.plains[members[0]];
+    // the unlimited variants of core LIMIT queries are core themselves, so `base` lookups stay valid
+    let skip = |q: &Q| core_only && !q.core;
+    // this item covers the queries [lo, hi) of the menu (the menu is cut into chunks so that a single state still
+    // fills all cores)
+    let (lo, hi) = range;
+    let mut plain_out: Vec<Out> = Vec::with_capacity(hi - lo);
+    for qi in lo..hi {
+        let q = &menu[qi];
+        if qi % 64 == 0 && expired() {
+            return None; // time cap: this item is not counted as examined
+        }
+        plain_out.push(if skip(q) { Out::Done } else { run_q(plain, q) });
+    }
+    for qi in lo..hi {
+        if !skip(&menu[qi]) {
+            tally_plain(&plain_out[qi - lo], &mut r.tally);
+        }
+    }
+    for (k, idx, placement) in &todo {
+        let shape = &shapes[*k];
+        if lo == 0 {
+            if *placement == "fresh" {
+                r.fresh_cases += 1;
+            } else {
+                r.maint_cases += 1;
+            }
+        }
+        for qi in lo..hi {
+            let q = &menu[qi];
+            if skip(q) {
+                continue;
+            }
+            if qi % 64 == 0 && expired() {
+                return None;
+            }
+            let ri = run_q(idx, q);
+            let verdict = judge_out(&q.order, q.limit.is_some(), &plain_out[qi - lo], &ri, &|| q.base.map(|b| if b >= lo && b < hi { plain_out[b - lo].clone() } else { run_q(plain, &menu[b]) }), &mut r.tally);
+            if let Some(what) = verdict {
+                let index = if *placement == "fresh" { "fresh".to_string() } else { format!("maintained:{}", hist_kinds(&n.hist)) };
+                r.fails.push(Fail {
+                    sig: vec![
+                        ("shape", shape.key.to_string()),
+                        ("family", q.fam.to_string()),
+                        ("ops", q.ops.clone()),
+                        ("lit", q.lit.clone()),
+                        ("ctx", q.ctx.to_string()),
+                        ("index", index),
+                        ("beyond_2p53", beyond_2p53(&q.sql, &n.hist).to_string()),
+                    ],
+                    what: format!("`{}` [index {}; {}; history: {}] {}", q.sql, shape.ddl.join("; "), placement, if n.hist.is_empty() { "-".to_string() } else { n.hist.join("; ") }, what),
+                    case: case_json(shape, placement, &n.hist, q),
+                });
+            }
+        }
+    }
+    Some(r)
+}
+
+pub fn run(tier: &str) -> i32 {
+    let mut rep = Report::new("C02", tier, "model_checking");
+    vibesql_types::verif::reset();
+    let thorough = tier == "thorough";
+    let shapes: Vec<Shape> = if thorough { all_shapes() } else { all_shapes().into_iter().take(5).collect() };
+    let depth = if thorough { 3 } else { 2 };
+    let alpha: Vec<String> = alphabet(thorough).into_iter().map(|s| s.to_string()).collect();
+    // groups of shapes that share a menu
+    let mut groups: Vec<(Vec<usize>, Vec<Q>)> = vec![];
+    for (i, s) in shapes.iter().enumerate() {
+        match groups.iter_mut().find(|(m, _)| shapes[m[0]].lead == s.lead && shapes[m[0]].other == s.other) {
+            Some((m, _)) => m.push(i),
+            None => groups.push((vec![i], menu(s.lead, s.other, thorough))),
+        }
+    }
+    let max_secs: f64 = std::env::var("VERIF_C02_SECS").ok().and_then(|s| s.parse().ok()).unwrap_or(if thorough { 800.0 } else { 17.0 });
+
+    let mut root = Node { plains: vec![], maints: vec![], hist: vec![], fp_plain: 0, fp_maints: vec![] };
+    for s in &shapes {
+        match build_root(s) {
+            Ok((plain, idx)) => {
+                root.plains.push(plain);
+                root.maints.push(Some(idx));
+            }
+            Err(e) => {
+                rep.machinery_error(format!("shape {}: {}", s.key, e));
+                return rep.finish();
+            }
+        }
+    }
+    fp_node(&mut root);
+    let mut seen: HashSet<u128> = HashSet::from([node_key(&root)]);
+    let mut frontier = vec![root];
+    let mut fresh_seen: HashSet<(u128, usize)> = HashSet::new();
+    let mut maint_seen: HashSet<(usize, u128)> = HashSet::new();
+    let (mut states, mut transitions, mut ok_tr, mut err_tr, mut pruned_unique) = (0u64, 0u64, 0u64, 0u64, 0u64);
+    let mut total = Tally::default();
+    let (mut fresh_cases, mut maint_cases, mut no_fresh) = (0u64, 0u64, 0u64);
+    let mut depth_done: i64 = -1;
+    let mut capped = false;
+    let mut confirmed_sigs: HashSet<String> = HashSet::new();
+    let mut samples: Vec<Value> = vec![];
+    let mut per_depth: Vec<u64> = vec![];
+    let mut states_with_stats = 0u64;
+
+    for d in 0..=depth {
+        if rep.start.elapsed().as_secs_f64() > max_secs {
+            capped = true;
+            break;
+        }
+        per_depth.push(frontier.len() as u64);
+        states += frontier.len() as u64;
+        states_with_stats += frontier.iter().filter(|n| n.plains[0].get_table("T").map(|t| t.get_statistics().is_some()).unwrap_or(false)).count() as u64;
+        // work items of this level: (node, group, fresh twin still to be examined for this plain state?)
+        const CHUNK: usize = 160;
+        let mut items: Vec<(usize, usize, bool, usize, usize)> = vec![];
+        for (ni, n) in frontier.iter().enumerate() {
+            for gi in 0..groups.len() {
+                let do_fresh = fresh_seen.insert((n.fp_plain, gi));
+                let len = groups[gi].1.len();
+                let mut lo = 0;
+                while lo < len {
+                    items.push((ni, gi, do_fresh, lo, (lo + CHUNK).min(len)));
+                    lo += CHUNK;
+                }
+            }
+        }
+        let deadline_hit = std::sync::atomic::AtomicBool::new(false);
+        let results: Vec<Option<ItemResult>> = util::par_map(&items, |_, (ni, gi, do_fresh, lo, hi)| {
+            if rep.start.elapsed().as_secs_f64() > max_secs {
+                deadline_hit.store(true, AO::Relaxed);
+                return None;
+            }
+            let r = check_group(&frontier[*ni], &shapes, &groups[*gi].0, &groups[*gi].1, d == depth, *do_fresh, &maint_seen, (*lo, *hi), &|| rep.start.elapsed().as_secs_f64() > max_secs);
+            if r.is_none() {
+                deadline_hit.store(true, AO::Relaxed);
+            }
+            r
+        });
+        for ((ni, gi, _, _, _), r) in items.iter().zip(results) {
+            let Some(r) = r else { continue };
+            let n = &frontier[*ni];
+            total.evaluated += r.tally.evaluated;
+            total.both_err += r.tally.both_err;
+            total.plain_err_only += r.tally.plain_err_only;
+            total.nonempty += r.tally.nonempty;
+            total.outcomes.extend(r.tally.outcomes.iter().copied());
+            fresh_cases += r.fresh_cases;
+            maint_cases += r.maint_cases;
+            no_fresh += r.no_fresh_twin;
+            maint_seen.extend(r.maint_done.iter().copied());
+            if r.fresh_cases + r.maint_cases > 0 && samples.len() < 8 && (d == depth || samples.len() < 3) {
+                samples.push(json!({"shapes": groups[*gi].0.iter().map(|k| shapes[*k].key).collect::<Vec<_>>(), "history": n.hist, "queries": groups[*gi].1.len(), "twins_examined": r.fresh_cases + r.maint_cases, "failing": r.fails.len()}));
+            }
+            for f in r.fails {
+                let key = f.sig.iter().map(|(k, v)| format!("{}={}", k, v)).collect::<Vec<_>>().join(";");
+                if confirmed_sigs.insert(key) {
+                    // re-execute the case from scratch before reporting it
+                    if let Err(e) = tw::confirm(&|| eval_case(&f.case, false)) {
+                        rep.machinery_error(format!("case did not reproduce from scratch: {} :: {}", e, f.what));
+                        continue;
+                    }
+                }
+                rep.violation(&f.sig, f.what, f.case);
+            }
+        }
+        if deadline_hit.load(AO::Relaxed) {
+            capped = true;
+            break;
+        }
+        depth_done = d as i64;
+        if d == depth {
+            break;
+        }
+        // expand
+        let children: Vec<Vec<(Node, bool, u64)>> = util::par_map(&frontier, |_, n| {
+            let mut out = vec![];
+            for op in &alpha {
+                let mut plains = vec![];
+                let mut maints = vec![];
+                let mut first: Option<Out> = None;
+                let mut pruned = 0u64;
+                for k in 0..shapes.len() {
+                    let mut p = n.plains[k].clone();
+                    let a = tw::step(&mut p, op);
+                    let m = match &n.maints[k] {
+                        Some(m) => {
+                            let mut m2 = m.clone();
+                            let b = tw::step(&mut m2, op);
+                            if a.class() == b.class() && a.count() == b.count() {
+                                Some(m2)
+                            } else if shapes[k].unique {
+                                pruned += 1;
+                                None // the UNIQUE index legitimately rejected what the plain table accepts
+                            } else {
+                                Some(m2) // the queries of the next level will show the difference
+                            }
+                        }
+                        None => None,
+                    };
+                    if first.is_none() {
+                        first = Some(a);
+                    }
+                    plains.push(p);
+                    maints.push(m);
+                }
+                let mut hist = n.hist.clone();
+                hist.push(op.clone());
+                let mut c = Node { plains, maints, hist, fp_plain: 0, fp_maints: vec![] };
+                fp_node(&mut c);
+                out.push((c, first.map(|o| o.is_ok()).unwrap_or(false), pruned));
+            }
+            out
+        });
+        let mut next = vec![];
+        for (child, ok, pruned) in children.into_iter().flatten() {
+            transitions += 1;
+            if ok {
+                ok_tr += 1;
+            } else {
+                err_tr += 1;
+            }
+            pruned_unique += pruned;
+            if seen.insert(node_key(&child)) {
+                next.push(child);
+            }
+        }
+        frontier = next;
+    }
+
+    let (reach, vac) = vcore::report::reach_json(&["index_scan", "index_where_skip"]);
+    rep.set("states", json!(states));
+    rep.set("transitions", json!(transitions));
+    rep.set("traces_validated_against_impl", json!(transitions));
+    rep.set("ok_transitions", json!(ok_tr));
+    rep.set("err_transitions", json!(err_tr));
+    rep.set("history_depth_bound", json!(depth));
+    rep.set("history_depth_completed", json!(depth_done));
+    rep.set("states_per_depth", json!(per_depth));
+    rep.set("states_with_table_statistics_cost_based_selection", json!(states_with_stats));
+    rep.set("exhaustive", json!(!capped && depth_done == depth as i64));
+    rep.set("capped_by_time", json!(capped));
+    rep.set("index_shapes", json!(shapes.iter().map(|s| s.key).collect::<Vec<_>>()));
+    rep.set("history_alphabet", json!(alpha));
+    rep.set("core_queries_per_menu", json!(groups.iter().map(|(m, q)| (format!("lead={} other={}", shapes[m[0]].lead, shapes[m[0]].other), q.iter().filter(|x| x.core).count())).collect::<BTreeMap<_, _>>()));
+    rep.set("menu_by_depth", json!(format!("full menu at history depth < {}, core menu at depth {}", depth, depth)));
+    rep.set("queries_per_menu", json!(groups.iter().map(|(m, q)| (format!("lead={} other={}", shapes[m[0]].lead, shapes[m[0]].other), q.len())).collect::<BTreeMap<_, _>>()));
+    rep.set("evaluations", json!(total.evaluated));
+    rep.set("query_pairs_with_rows", json!(total.nonempty));
+    rep.set("query_pairs_both_rejected", json!(total.both_err));
+    rep.set("query_pairs_only_plain_rejected", json!(total.plain_err_only));
+    rep.set("distinct_nontrivial", json!(total.outcomes.len()));
+    rep.set("fresh_index_twins_examined", json!(fresh_cases));
+    rep.set("maintained_index_twins_examined", json!(maint_cases));
+    rep.set("states_without_fresh_twin", json!(no_fresh));
+    rep.set("unique_shape_branches_pruned", json!(pruned_unique));
+    rep.set("reach", reach);
+    rep.set("vacuous_mechanisms", vac);
+    rep.set("samples", json!(samples));
+    rep.set("rule", json!("BFS over all DML histories up to the depth bound (states merged on the whole-database fingerprints of the index-free database and of every maintained-index twin); at every new table state the whole query menu of every index shape is executed on the index-free database and on a twin whose index is built from the final rows, and additionally on the twin whose index was maintained through the history whenever its index contents differ from the freshly built one; oracle: bag equality, sortedness of ORDER BY output under NULLs-last (own comparator), key-sequence equality and sub-bag under LIMIT/OFFSET"));
+    rep.assume("literals are type-compatible with the indexed column; a query both twins reject is not a case; a query only the index-free twin rejects is not a violation");
+    println!(
+        "C02 {}: shapes={} menus={:?} depth={}/{} states={} transitions={} (ok {} / err {}) query-pairs={} with-rows={} distinct-results={} fresh-twins={} maintained-twins={} capped={}",
+        tier,
+        shapes.len(),
+        groups.iter().map(|(_, q)| q.len()).collect::<Vec<_>>(),
+        depth_done,
+        depth,
+        states,
+        transitions,
+        ok_tr,
+        err_tr,
+        total.evaluated,
+        total.nonempty,
+        total.outcomes.len(),
+        fresh_cases,
+        maint_cases,
+        capped
+    );
+    rep.finish()
 }
